@@ -196,9 +196,12 @@ def fromString : DType F → Text → Res F
   | .enum ms, t =>
     match t with
     | .bare s =>
-      match enumByName ms (lib.strip s) with
+      match enumByName ms s with                    -- the name as given (a member name may start or end with blanks)
       | some (n, v) => .ok (.enum n v)
-      | none => .error .wrongType                   -- falls back to `literal_eval(text)`: unmodelled, almost always refused
+      | none =>
+        match enumByName ms (lib.strip s) with
+        | some (n, v) => .ok (.enum n v)
+        | none => .error .wrongType                 -- falls back to `literal_eval(text)`: unmodelled, almost always refused
     | .syn s =>
       match literalEval lib s with
       | some v => call (.enum ms) v
@@ -220,14 +223,39 @@ def fromString : DType F → Text → Res F
 
 /-! ### the client -/
 
-/-- `str(CacheItem(value, timestamp, None, datatype))` = `datatype.to_string(value)` -/
-def cacheItemStr (cdt : DType F) (v : PVal F) : Option Text := toString lib cdt v
+/-- a cache entry of the client, `CacheItem(value, timestamp, readerror, datatype)` (client/__init__.py 118-175); the
+timestamp takes no part in the text forms.  The constructor overrides `to_string` / `format_value` with the datatype's
+(`if datatype:` — a datatype object is always true) -/
+structure CacheItem (F : Type) where
+  value : PVal F
+  /-- `repr` of the exception of an error update -/
+  readerror : Option String
 
-/-- what `SecopClient.setParameterFromString` hands to `json.dumps` for the `change` request:
+/-- `SecopClient.updateValue(module, param, value, timestamp, None)` (client/__init__.py 825-831): the entry made of
+the data of an `update` / `changed` message — `datatype.import_value(value)` on the client's datatype -/
+def updateValue (cdt : DType F) (j : JVal F) : Except Err (CacheItem F) :=
+  match importValue cdt j with
+  | .error e => .error e
+  | .ok v => .ok ⟨v, none⟩
+
+/-- `str(item)` (150-157): `repr(readerror)` of an error entry, else `datatype.to_string(value)` -/
+def CacheItem.str (cdt : DType F) (item : CacheItem F) : Option Text :=
+  match item.readerror with
+  | some r => some (.bare r)
+  | none => toString lib cdt item.value
+
+/-- `str(CacheItem(value, timestamp, None, datatype))` = `datatype.to_string(value)` -/
+def cacheItemStr (cdt : DType F) (v : PVal F) : Option Text := CacheItem.str lib cdt ⟨v, none⟩
+
+/-- what `SecopClient.setParameter` (790-795) hands to `json.dumps` for the `change` request:
+`datatype.export_value(value)` on the client's datatype -/
+def clientSet (cdt : DType F) (v : PVal F) : Except Err (JVal F) := exportValue cdt v
+
+/-- what `SecopClient.setParameterFromString` (797-806) hands to `json.dumps` for the `change` request:
 `datatype.export_value(datatype.from_string(formatted))` on the client's datatype -/
 def clientSetFromString (cdt : DType F) (t : Text) : Except Err (JVal F) :=
   match fromString lib cdt t with
   | .error e => .error e
-  | .ok v => exportValue cdt v
+  | .ok v => clientSet cdt v
 
 end Frappy.Datatypes
